@@ -49,6 +49,7 @@ type vpItem struct {
 type vpOut struct {
 	Kind string           `json:"kind"` // ok | fail | malformed | norunid
 	F    string           `json:"f"`    // retry | 409 | 401 | 410 | other | transport
+	Code int              `json:"code"` // the status the collector answers with (0: derived from F); model: Status.fail_of_code
 	Host int64            `json:"host"`
 	Run  int64            `json:"run"`
 	Hdr  int64            `json:"hdr"`
@@ -72,6 +73,8 @@ type vpOp struct {
 	Ty    int               `json:"ty"`
 	Dts   int64             `json:"dts"`  // advance, seconds
 	Outs  map[string]string `json:"outs"` // clean exit: "<run>:<cat>" or "default" -> outcome name
+	Tag0  int64             `json:"tag0"` // bulk: N transactions, each with one transaction event tag0+i, priority prio0+i
+	Prio0 int64             `json:"prio0"`
 }
 
 type vpHistory struct {
@@ -601,6 +604,14 @@ func vpErr(f string) collector.RPMResponse {
 	return collector.RPMResponse{StatusCode: code, Err: errors.New("verif: collector outcome " + f)}
 }
 
+// vpErrOut: a failed reply carrying the concrete status code chosen by the generator
+func vpErrOut(o vpOut) collector.RPMResponse {
+	if o.Code != 0 {
+		return collector.RPMResponse{StatusCode: o.Code, Err: fmt.Errorf("verif: collector answered %d", o.Code)}
+	}
+	return vpErr(o.F)
+}
+
 func vpOutcome(name string) collector.RPMResponse {
 	if name == "ok" {
 		return collector.RPMResponse{StatusCode: 202}
@@ -745,6 +756,22 @@ func (r *vpRunner) run(h *vpHistory) (obs vpObs) {
 				step.Note = "handle: " + err.Error()
 			}
 			r.settle(1)
+		case "bulk":
+			// N plain transactions in one step (large reservoirs: payload splitting, the daemon maximum)
+			h := CommandsHandler{Processor: r.p}
+			for i := 0; i < op.N; i++ {
+				one := vpOp{Run: op.Run, Prio: op.Prio0 + int64(i),
+					Items: []vpItem{{Cat: "txnev", Tag: op.Tag0 + int64(i), Prio: op.Prio0 + int64(i)}}}
+				if _, err := h.HandleMessage(RawMessage{Type: MessageTypeBinary, Bytes: vpBuildTxn(fmt.Sprintf("r%d", op.Run), &one)}); err != nil {
+					step.Note = "handle: " + err.Error()
+				}
+				select { // the processor announces every event on the unbuffered trackProgress
+				case <-r.p.trackProgress:
+				case <-time.After(3 * time.Second):
+					step.Note = "bulk: no progress"
+				}
+			}
+			r.settle(0)
 		case "pre", "conn":
 			// n-th connect attempt in progress; it must be in the matching stage
 			if op.N < len(r.attempts) {
@@ -763,7 +790,7 @@ func (r *vpRunner) run(h *vpHistory) (obs vpObs) {
 					case op.Out.Kind == "norunid":
 						resp = collector.RPMResponse{StatusCode: 200, Body: []byte(`{"zip":"zap"}`)}
 					case op.Out.Kind == "fail":
-						resp = vpErr(op.Out.F)
+						resp = vpErrOut(op.Out)
 					default: // connect ok
 						c := op.Out.Caps
 						body := fmt.Sprintf(`{"agent_run_id":"r%d","event_harvest_config":{"report_period_ms":60000,`+
@@ -809,7 +836,7 @@ func (r *vpRunner) run(h *vpHistory) (obs vpObs) {
 				r.reqs = append(r.reqs[:idx], r.reqs[idx+1:]...)
 				resp := vpOutcome(op.Out.Kind)
 				if op.Out.Kind == "fail" {
-					resp = vpErr(op.Out.F)
+					resp = vpErrOut(op.Out)
 				}
 				min := 0
 				if resp.Err != nil {
@@ -938,6 +965,11 @@ func TestVerifProc(t *testing.T) {
 		go func(i int) {
 			defer wg.Done()
 			defer func() { <-sem }()
+			if in.Parallel == 1 {
+				// one history at a time: leave a marker, so that a history on which the daemon code dies
+				// (panic in one of its goroutines, fatal runtime error) can be named
+				ioutil.WriteFile(outPath+".cur", []byte(strconv.Itoa(i)), 0644)
+			}
 			out[i] = vpRunHistory(&in.Histories[i], time.Duration(in.SettleUs)*time.Microsecond)
 		}(i)
 	}
